@@ -42,6 +42,16 @@ def fix_record(ex, model, rec):
         if kind == 'float':
             idx[v.get_id()] = pos
         pos += 1
+    byname = {}
+    pos = 0
+    for kind, v in ex.inputs:
+        if kind == 'float':
+            byname[str(v)] = pos
+        pos += 1
+    cells_of = {}
+    for cells in getattr(ex, 'tq_keep', []):
+        key = tuple((c.t.get_id() if isinstance(c, FReal) else ('c', c)) for c in cells)
+        cells_of[key] = cells
     for key, var in tab.items():
         val = model.eval(var, model_completion=True)
         try:
@@ -49,9 +59,25 @@ def fix_record(ex, model, rec):
         except Exception:
             low = False
         n = len(key)
+        cells = cells_of.get(key, [None] * n)
         for k, cid in enumerate(key):
+            targets = []
             if cid in idx:
-                rec['inputs'][idx[cid]]['f'] = 0.0 if low else (k + 0.5) / n
+                targets = [idx[cid]]
+            elif cells[k] is not None and isinstance(cells[k], FReal):
+                # a cell that is a conditional expression over declared Q-values: set every declared value it mentions
+                stack, seen = [cells[k].t], set()
+                while stack:
+                    t = stack.pop()
+                    if t.get_id() in seen:
+                        continue
+                    seen.add(t.get_id())
+                    if z3.is_const(t) and str(t) in byname:
+                        targets.append(byname[str(t)])
+                    elif not z3.is_bv(t):
+                        stack.extend(t.children())
+            for ti in targets:
+                rec['inputs'][ti]['f'] = 0.0 if low else (k + 0.5) / n
     return rec
 
 
@@ -428,6 +454,12 @@ def c_numcpu(ex, fr, st, args, ins):
     return 2
 
 
+def _fail_once(ex, st, sp):
+    typ = next(t for t in ex.prog.types if t.endswith('/detect.vStream'))
+    f = ex.load(st, sp, typ)
+    return f[7] if len(f) > 7 else False
+
+
 def vs_read(ex, fr, st, args, ins):
     """(*vStream).Read: delivers the next bytes of the stream; may deliver fewer than requested (maxChunk) and may
     fail at stream offset failAt (then the bytes before failAt are still delivered together with the error)"""
@@ -464,7 +496,10 @@ def vs_read(ex, fr, st, args, ins):
     if failc is False:
         err = None
     else:
-        err = Iface('*errors.errorString', Opaque('error', ('stream-failure',)), b_not(failc))
+        once = _fail_once(ex, st, sp)
+        if once is not False:
+            ex.store(st, Ptr(sp.obj, sp.path + (2,)), int_ite(b_and(failc, once), -1, failAt, 64))
+        err = _err_value(_stream_err_id(ex), b_not(failc))
     return (deliver, err)
 
 
@@ -473,8 +508,16 @@ def wf_readfull_general(ex, fr, st, args, ins):
     next len(buf) bytes and (len, nil) is returned, or the stream fails first: the bytes before the failure point are
     delivered and a non-nil error is returned (io.EOF, io.ErrUnexpectedEOF or the source's own error)"""
     r, buf = args
-    sp = r.val
-    pos, reads, failAt, failErr, maxChunk, kind = ex.load(st, sp, r.typ[1:])[:6]
+    if isinstance(r, Iface) and r.typ.endswith('.vStream'):
+        sp, styp = r.val, r.typ[1:]
+        ex.last_stream = (sp, styp)
+    elif getattr(ex, 'last_stream', None) is not None:
+        # the source wrapped in an adapter: the contract is applied to the harness stream behind it
+        sp, styp = ex.last_stream
+        ex.notes.add('io.ReadFull called on a wrapper of the harness stream: contract applied to the underlying stream')
+    else:
+        raise Unsupported('io.ReadFull on %r' % (r,))
+    pos, reads, failAt, failErr, maxChunk, kind = ex.load(st, sp, styp)[:6]
     n = buf.len
     c = _conc(ex)
     if c['lockdepth'] == 0:
@@ -500,7 +543,14 @@ def wf_readfull_general(ex, fr, st, args, ins):
     if ok is True:
         err = None
     else:
-        err = Iface('*errors.errorString', Opaque('error', ('stream-failure',)), ok)
+        once = _fail_once(ex, st, sp)
+        if once is not False:
+            ex.store(st, Ptr(sp.obj, sp.path + (2,)), int_ite(b_and(b_not(ok), once), -1, failAt, 64))
+        # io.ReadFull: nothing read -> the reader's error; partial -> io.ErrUnexpectedEOF if the reader said io.EOF
+        sid = _stream_err_id(ex)
+        partial = int_cmp('>', deliver, 0, 64, True)
+        eid = int_ite(b_and(partial, int_cmp('==', sid, 1, 64, True)), 2, sid, 64)
+        err = _err_value(eid, ok)
     return (deliver, err)
 
 
@@ -567,12 +617,29 @@ def wf_round_pos_ok(ex, fr, st, args, ins):
     return ok
 
 
+def _err_value(eid, isnil=False):
+    return Iface('*errors.errorString', Opaque('error', ('id', eid)), isnil)
+
+
 def wf_fail_err(ex, fr, st, args, ins):
+    """the error a failing vStream returns: kind 0 -> nil (the stream then reports io.EOF), 1 custom, 2 io.ErrUnexpectedEOF"""
+    k = args[0]
+    ex.fail_kind = k
     return None
+
+
+def _stream_err_id(ex):
+    """id of the error the failing stream returns: 1 io.EOF, 2 io.ErrUnexpectedEOF, 3 custom"""
+    k = getattr(ex, 'fail_kind', 0)
+    if isinstance(k, int):
+        return {0: 1, 1: 3, 2: 2}.get(k, 1)
+    return int_ite(int_cmp('==', k, 1, 64, True), 3, int_ite(int_cmp('==', k, 2, 64, True), 2, 1, 64), 64)
 
 
 def wf_guard(ex, fr, st, args, ins):
     which, src = args
+    if isinstance(src, Iface) and src.typ.endswith('.vStream'):
+        ex.last_stream = (src.val, src.typ[1:])
     return ex.call_named(fr, st, DP + '.fastRun', [which, src], ins)
 
 
